@@ -146,7 +146,11 @@ mutual
     | .none => "None".toList
     | .list xs => '[' :: joinWith ", ".toList (reprEscList xs) ++ [']']
     | .dict kvs => '{' :: joinWith ", ".toList (reprEscKvs kvs) ++ ['}']
+    | .injected kvs => "DepInject(".toList ++ joinWith ", ".toList (reprEscFields kvs) ++ [')']   -- a namedtuple inside a printed value
     | _ => "?".toList
+  def reprEscFields : List (Str × Val) → List Str
+    | [] => []
+    | (k, v) :: kvs => (k ++ ['='] ++ reprEsc v) :: reprEscFields kvs
   def reprEscList : List Val → List Str
     | [] => []
     | v :: vs => reprEsc v :: reprEscList vs
